@@ -1061,15 +1061,17 @@ pub fn get_limit(params: &EntityParams, prepared_query: &mut SingleQuery) -> Str
     }
 
     if let Some(skip) = &params.skip {
+        //sqlite only accepts OFFSET after a LIMIT clause, -1 means no limit
+        let no_limit = if query.is_empty() { "LIMIT -1" } else { "" };
         match skip {
             FieldValue::Variable(var) => {
                 let vars = prepared_query.add_param(String::from(var), false);
-                query.push_str(&format!(" OFFSET {}", vars));
+                query.push_str(&format!("{} OFFSET {}", no_limit, vars));
             }
             FieldValue::Value(val) => {
                 let val = val.as_i64().unwrap();
                 if val != 0 {
-                    query.push_str(&format!(" OFFSET {}", val));
+                    query.push_str(&format!("{} OFFSET {}", no_limit, val));
                 }
             }
         }
